@@ -4,12 +4,13 @@
 // (to validate the mini-fmt parser of the model), and fmtquill::format("{fs}", value) to fill the
 // oracle table of the model.
 //
-// case lines (strings are <len> <byte>*len):
+// case lines (strings are <len> <byte>*len); a pat line may start with "9 <pv_bits> <pv_esc>", the
+// variant of the model it is run on (ignored here):
 //   pat 0 <pattern> <stmt> <table>                     create + format
 //   pat 1 <add_meta> <site> <pattern> <stmt> <rt_file> <rt_line> <table>   lines at the sink
 //   pat 2 <fmt> <nargs> (<0> | <1> <bytes>)*nargs <table>                  vformat_to alone
 //   pat 3 <pattern>                                     constructor state (_fmt_format, ...)
-//   patd <hoist> <nsinks> sink* <nloggers> logger* <nstmts> statement* <table>
+//   patd <h = hoist + 2 pv_esc + 4 pv_bits> <nsinks> sink* <nloggers> logger* <nstmts> statement* <table>
 //                                                       which line each sink of a logger is handed
 //                                                       (see Format/PatDispatch.v, patd_run_enc)
 //   pato 0 <n> (<fs> <v>)*n                             oracle: rendering of "{fs}" with v
@@ -420,6 +421,13 @@ int main()
       if (!rd.ok) { out = {999999}; }
       vh::print_line(out);
       continue;
+    }
+
+    if (mode == 9)
+    {
+      // "9 <pv_bits> <pv_esc>": the variant of the MODEL the case is run on (PatModel.v, pat_run_enc)
+      (void)r.num(); (void)r.num();
+      mode = r.num();
     }
 
     if (mode == 0)
